@@ -124,8 +124,8 @@ Keep(G, ts) == [G |-> G, ts |-> ts, ok |-> FALSE, clamped |-> FALSE, late |-> FA
 ShiftItem(it, k) == [it EXCEPT !.at = @ + k * QLen, !.sh = @ + k]
 
 (* the for-loop of flushBuckets; one iteration = FlushAllDataSingleStep(gap <= 0).
-   noisy = ring indexes holding rows outside the model (always {} here; the trace spec of an
-   execution with other traffic supplies it) *)
+   noisy = ring indexes holding rows outside the model, which make a bucket non-empty (always {}
+   here: every row the driven code inserts is modelled) *)
 RECURSIVE FlushLoop(_, _, _, _)
 FlushLoop(G, s, upTo, noisy) ==
     IF upTo <= G.send[s] \/ G.chan[s] # <<>> THEN G
